@@ -49,7 +49,7 @@ def main():
                         print("   %-7s %-70s %.2fs  L%s %s" % (o["status"], o["id"], o["time"], o["line"], o["text"][:50]))
     for (fn, k_), v_ in br.items():
         for side, name in ((0, "then"), (1, "else")):
-            if not v_[side] and (k_ + " " + name) not in v_[2] and not any(k_.startswith(d.rsplit(" @", 1)[0]) and d.endswith(name) for d in v_[2]):
+            if not v_[side] and (k_ + " " + name) not in v_[2]:
                 print("   UNREACHED-BRANCH %s: %s [%s]" % (fn, k_, name))
                 bad += 1
     print("units %d  obligations %d/%d  bad-units %d  wall %.0fs" % (len(units), ok, tot, bad, time.time() - t0))
